@@ -81,24 +81,160 @@ def canon(entries):
     return {'shape': ''.join(shape), 'runs': sorted(cr), 'loose': sorted(loose), 'missing': sorted(missing)}
 
 
-def impl_entries(h, req, skip, streams):
-    out = []
-    if streams:
-        with h.get_objects_stream_and_meta(req, skip_if_missing=skip) as it:
-            for k, s, m in it:
-                out.append((k, m))
-    else:
-        out = list(h.get_objects_meta(req, skip_if_missing=skip))
+class _Proxy:
+    """a file object that reports its close(); everything else is forwarded"""
+    def __init__(self, f, log, tag):
+        self._f, self._log, self._tag = f, log, tag
+
+    def close(self):
+        if not self._f.closed:
+            self._log.append(('c',) + self._tag)
+        return self._f.close()
+
+    @property
+    def closed(self):
+        return self._f.closed
+
+    def __enter__(self):
+        return self
+
+    def __exit__(self, *a):
+        self.close()
+
+    def __iter__(self):
+        return iter(self._f)
+
+    def __getattr__(self, n):
+        return getattr(self._f, n)
+
+
+def _entry(k, m):
+    t = m['type'].value
+    if t == 'packed':
+        return ('P', k, m['pack_id'], m['pack_offset'], m['pack_length'], 1 if m['pack_compressed'] else 0, m['size'])
+    if t == 'loose':
+        return ('L', k, m['size'])
+    return ('M', k)
+
+
+def impl_entries(h, d, req, skip, streams, log):
+    """runs the bulk call; returns the entries in generator order; `log` receives the opens/closes of pack and loose files made by
+    container.py (module-level open shadowed for the duration of the call), the session resets and the yields, in order"""
+    import builtins
+    import disk_objectstore.container as cont
+    pdir, ldir = os.path.join(d, 'packs') + os.sep, os.path.join(d, 'loose') + os.sep
+
+    def classify(path):
+        path = os.fspath(path)
+        if path.startswith(pdir) and path[len(pdir):].lstrip('-').isdigit():
+            return ('p', int(path[len(pdir):]))
+        if path.startswith(ldir):
+            return ('l', path[len(ldir):].replace(os.sep, ''))
+        return None
+
+    def wopen(path, mode='r', *a, **k):
+        cls = classify(path)
+        try:
+            f = builtins.open(path, mode, *a, **k)
+        except FileNotFoundError:
+            if cls and cls[0] == 'l':
+                log.append(('ms', cls[1]))
+            raise
+        if cls is None:
+            return f
+        log.append(('o',) + cls)
+        return _Proxy(f, log, cls)
+    orig_reset = h._close_operation_session
+
+    def wreset():
+        log.append(('reset',))
+        return orig_reset()
     res = []
-    for k, m in out:
-        t = m['type'].value
-        if t == 'packed':
-            res.append(('P', k, m['pack_id'], m['pack_offset'], m['pack_length'], 1 if m['pack_compressed'] else 0, m['size']))
-        elif t == 'loose':
-            res.append(('L', k, m['size']))
+    cont.open = wopen
+    h._close_operation_session = wreset
+    try:
+        if streams:
+            with h.get_objects_stream_and_meta(req, skip_if_missing=skip) as it:
+                for k, s, m in it:
+                    e = _entry(k, m)
+                    log.append(('y', e))
+                    res.append(e)
+                    if s is not None:
+                        s.read()            # sequential consumption: no seek, the re-loosened cache is never asked for
         else:
-            res.append(('M', k))
+            for k, m in h.get_objects_meta(req, skip_if_missing=skip):
+                e = _entry(k, m)
+                log.append(('y', e))
+                res.append(e)
+    finally:
+        del cont.open
+        del h._close_operation_session
     return res
+
+
+def canon_events(log, rank=None):
+    """(depth problems, canonical form): blocks (file, entries yielded while it was open) per phase (before / after the session reset),
+    entries yielded with no file open, failed opens"""
+    rk = (lambda k: rank[k]) if rank else (lambda k: k)
+    phases = [{'blocks': [], 'bare': []}]
+    misses, problems = [], []
+    cur, depth = None, 0
+
+    def ent(e):
+        return (e[0], rk(e[1])) + tuple(e[2:])
+    for ev in log:
+        if ev[0] == 'o':
+            depth += 1
+            if depth > 1:
+                problems.append(f'{depth} files open at once')
+            cur = [(ev[1], ev[2] if ev[1] == 'p' else rk(ev[2])), []]
+        elif ev[0] == 'c':
+            depth -= 1
+            if cur is not None:
+                ys = cur[1]
+                out, i = [], 0
+                while i < len(ys):        # ties on the offset inside a pack block: order by length
+                    j = i
+                    while j < len(ys) and ys[j][0] == 'P' and ys[i][0] == 'P' and ys[j][3] == ys[i][3]:
+                        j += 1
+                    j = max(j, i + 1)
+                    out += sorted(ys[i:j], key=lambda r: (r[4] if r[0] == 'P' else 0, r[1]))
+                    i = j
+                phases[-1]['blocks'].append((cur[0], tuple(out)))
+                cur = None
+        elif ev[0] == 'ms':
+            misses.append(rk(ev[1]))
+        elif ev[0] == 'reset':
+            phases.append({'blocks': [], 'bare': []})
+        elif ev[0] == 'y':
+            (cur[1] if cur is not None else phases[-1]['bare']).append(ent(ev[1]))
+    if depth != 0:
+        problems.append(f'{depth} files still open when the call ended')
+    return problems, {'phases': [{'blocks': sorted(p['blocks']), 'bare': sorted(p['bare'])} for p in phases], 'misses': sorted(misses)}
+
+
+def parse_model_events(line):
+    st, _, rest = line.partition(' ')
+    log = []
+    for tok in rest.split(',') if rest else []:
+        if tok.startswith('op'):
+            log.append(('o', 'p', int(tok[2:])))
+        elif tok.startswith('cp'):
+            log.append(('c', 'p', int(tok[2:])))
+        elif tok.startswith('ol'):
+            log.append(('o', 'l', int(tok[2:])))
+        elif tok.startswith('cl'):
+            log.append(('c', 'l', int(tok[2:])))
+        elif tok.startswith('ms'):
+            log.append(('ms', int(tok[2:])))
+        elif tok == 'reset':
+            log.append(('reset',))
+        elif tok.startswith('y'):
+            f = tok[1:].split(':')
+            log.append(('y', (f[0],) + tuple(int(x) for x in f[1:])))
+        else:
+            raise ValueError(tok)
+    return st, log
 
 
 def model_line(in_max, iter_max, skip, d1, ls, d2, ks, rank):
@@ -136,6 +272,7 @@ def run(ck, tier, ncont=None):
     rng = ck.rng
     ncont = ncont or (6 if tier == 'quick' else 30)
     pending = []     # (case, impl canonical, model line, direct-oracle verdict)
+    evpending = []   # (case, canonical implementation events, model line, streams)
     dist = {'stale_snapshot': 0, 'refresh_needed': 0, 'scan': 0, 'chunked': 0, 'streams': 0, 'skip': 0, 'with_ties': 0, 'cases': 0}
     try:
         for ci in range(ncont):
@@ -184,8 +321,9 @@ def run(ck, tier, ncont=None):
                     d1 = session_rows(r)
                     ls = loose_sizes(d)
                     d2 = raw_rows(d)
+                    log = []
                     try:
-                        ents = impl_entries(r, req, skip, streams)
+                        ents = impl_entries(r, d, req, skip, streams, log)
                     except Exception as e:
                         ck.fail(f'bulk lookup raised {type(e).__name__}: {e}', {'kind': 'lookup', 'thresholds': thr, 'request': len(req)}, 'lookup-exception')
                         continue
@@ -217,7 +355,15 @@ def run(ck, tier, ncont=None):
                         ck.fail(f'bulk lookup ({"streams" if streams else "meta"}, thresholds {thr}, {len(dk)} distinct keys): ' + '; '.join(problems[:3]),
                                 case, 'lookup-oracle')
                     ci_ = canon([(e[0], rank[e[1]]) + tuple(e[2:]) for e in ents])
-                    pending.append((case, ci_, model_line(thr[0], thr[1], skip, d1, ls, d2, ks, rank), allk))
+                    ml = model_line(thr[0], thr[1], skip, d1, ls, d2, ks, rank)
+                    fdp, cev = canon_events(log, rank)
+                    if not streams and any(e[0] == 'o' for e in log):
+                        fdp.append('a file is opened by a metadata-only bulk call')
+                    if fdp:
+                        ck.fail(f'bulk read ({"streams" if streams else "meta"}, {len(dk)} distinct keys over {len({x[1] for x in d2})} packs): ' + '; '.join(fdp[:2]),
+                                case, 'lookup-fd')
+                    pending.append((case, ci_, ml, allk))
+                    evpending.append((case, cev, ml.replace('lookup ', 'lookup_events ' if streams else 'lookup_events_meta ', 1), streams))
                     dist['cases'] += 1
                     dist['stale_snapshot'] += d1 != d2
                     dist['refresh_needed'] += any(k not in {x[0] for x in d1} and k not in ls for k in dk)
@@ -247,6 +393,25 @@ def run(ck, tier, ncont=None):
                 bad.append((case, f'answers differ in {diff}: model {str({k: cm[k] for k in diff})[:300]} implementation {str({k: ci_[k] for k in diff})[:300]}'))
     ck.obligation(f'Lookup.lookup_bulk == _get_objects_stream_meta_generator on {len(pending)} requests (pinned/stale snapshots, loose folder, refreshed index)',
                   not bad, bad[0][1] if bad else str(dist), kind='correspondence')
+    badev = []
+    if evpending:
+        outs = _driver([p[2] for p in evpending])
+        for (case, cev, _line, streams), mo in zip(evpending, outs):
+            if mo.startswith('ERROR'):
+                badev.append((case, f'driver: {mo[:200]}'))
+                continue
+            st, mlog = parse_model_events(mo)
+            if not streams:     # stat() failures of a metadata-only call are not intercepted: compare without the failed opens
+                mlog = [e for e in mlog if e[0] != 'ms']
+            _, cm = canon_events(mlog)
+            if not streams:
+                cev = dict(cev, misses=[])
+            if cm != cev:
+                diff = [k for k in cm if cm[k] != cev[k]]
+                badev.append((case, f'events differ in {diff}: model {str({k: cm[k] for k in diff})[:300]} implementation {str({k: cev[k] for k in diff})[:300]}'))
+    ck.obligation(f'LookupFd.lookup_events == opens/closes/yields/session resets of the generator on {len(evpending)} bulk calls',
+                  not badev, badev[0][1] if badev else f'{sum(1 for p in evpending if p[3])} with streams', kind='correspondence')
+    bad = bad + badev
     ck.sample({'lookup_model_cases': dist})
     ck.lookup_disagreements = bad
     return len(pending)
